@@ -14,14 +14,15 @@ AR = 'tools/zonedb/argenerator.py'
 def era(rules, until_year, fmt, raw, offset=3600, rules_delta=0, until_month=1, until_day=1, until_secs=0, suffix='w'):
     return {'offsetString': '%d:00' % (offset // 3600), 'rules': rules, 'format': fmt, 'untilYear': until_year, 'untilYearOnly': until_month == 1 and until_day == 1,
             'untilMonth': until_month, 'untilDayString': str(until_day), 'untilTime': '%d:00' % (until_secs // 3600), 'untilTimeSuffix': suffix,
-            'rawLine': raw, 'offsetSeconds': offset, 'offsetSecondsTruncated': offset, 'rulesDeltaSeconds': rules_delta,
-            'rulesDeltaSecondsTruncated': rules_delta, 'untilDay': until_day, 'untilSeconds': until_secs, 'untilSecondsTruncated': until_secs}
+            # the untruncated twins differ from the truncated values, so that the text tells which one was rendered
+            'rawLine': raw, 'offsetSeconds': offset + 7, 'offsetSecondsTruncated': offset, 'rulesDeltaSeconds': rules_delta + 11,
+            'rulesDeltaSecondsTruncated': rules_delta, 'untilDay': until_day, 'untilSeconds': until_secs + 13, 'untilSecondsTruncated': until_secs}
 
 
 def rule(from_year, to_year, month, dow, dom, at, delta, letter, raw, suffix='w'):
     return {'fromYear': from_year, 'toYear': to_year, 'inMonth': month, 'onDay': 'x', 'atTime': '%d:00' % (at // 3600), 'atTimeSuffix': suffix,
-            'deltaOffset': '%d:00' % (delta // 3600), 'letter': letter, 'rawLine': raw, 'onDayOfWeek': dow, 'onDayOfMonth': dom, 'atSeconds': at,
-            'atSecondsTruncated': at, 'deltaSeconds': delta, 'deltaSecondsTruncated': delta, 'used': True}
+            'deltaOffset': '%d:00' % (delta // 3600), 'letter': letter, 'rawLine': raw, 'onDayOfWeek': dow, 'onDayOfMonth': dom, 'atSeconds': at + 17,
+            'atSecondsTruncated': at, 'deltaSeconds': delta + 19, 'deltaSecondsTruncated': delta, 'used': True}
 
 
 def tagged_db(scope='extended'):
